@@ -13,6 +13,9 @@
 #include "strops.h"
 #include "util.h"
 #include "xfloat.h"
+#ifdef ALDOR_VERIF
+#include "verifhook.h"
+#endif
 
 Bool	fileDebug	= false;
 #define fileDEBUG	DEBUG_IF(file)	afprintf
@@ -65,6 +68,11 @@ fileMustOpen(FileName fn, IOMode mode)
 
 	fileEnsureDirectory(fn);
 	stream = fileTryOpen(fn, mode);
+#ifdef ALDOR_VERIF
+	if (!stream)
+		VERIF_EVENT(("{\"ev\":\"OpenFail\",\"path\":\"%s\",\"mode\":\"%s\"}",
+			     fnameUnparseStatic(fn), mode));
+#endif
 	if (!stream) stream = (*fileError)(fn, mode);
 	return stream;
 }
